@@ -3,6 +3,7 @@ package main
 import (
 	"fmt"
 	"go/constant"
+	"go/types"
 	"strings"
 
 	"golang.org/x/tools/go/ssa"
@@ -24,17 +25,53 @@ func propC19(c *Ctx, r *Report) {
 	r.rule("C19-R1/version-recorded", 3, "each committed height records the build's sync version")
 	mhs := c.fn("pegnet.Pegnet.MarkHeightSynced")
 	mv := c.fn("pegnet.Pegnet.markHeightSyncedVersion")
-	for _, ci := range findCalls(mhs, "pegnet.Pegnet.markHeightSyncedVersion") {
-		a := ci.Common().Args
-		r.check(valuePath(a[3]) == "pegnet.PegnetdSyncVersion" && valuePath(a[2]) == "height" && valuePath(a[1]) == "tx", "C19-R1/version-recorded", "MarkHeightSynced records PegnetdSyncVersion for the given height on the given tx", c.ipos(ci), "", fmt.Sprintf("arguments are (%s, %s, %s)", valuePath(a[1]), valuePath(a[2]), valuePath(a[3])))
+	// by position and type, not by name: the scalars handed over (directly or as fields of a small struct) are the
+	// transaction and the height MarkHeightSynced was given, and the build's version constant
+	for _, ci := range c.findCallsFam(mhs, "pegnet.Pegnet.markHeightSyncedVersion") {
+		var srcs []ssa.Value
+		for _, a := range ci.Common().Args {
+			srcs = append(srcs, a)
+			if stt, ok := a.Type().Underlying().(*types.Struct); ok {
+				for k := 0; k < stt.NumFields(); k++ {
+					srcs = append(srcs, c.structFieldSources(a, k, 0)...)
+				}
+			}
+		}
+		hasTx, hasH, hasV := false, false, false
+		for _, v := range srcs {
+			if p := c.rootParamOf(v, mhs, 0); p != nil {
+				if b, ok := p.Type().Underlying().(*types.Basic); ok && b.Kind() == types.Uint32 {
+					hasH = true
+				} else if _, isBasic := p.Type().Underlying().(*types.Basic); !isBasic && p != mhs.Params[0] {
+					hasTx = true
+				}
+			}
+			if typePath(unwrapConv(v)) == "pegnet.PegnetdSyncVersion" || valuePath(unwrapConv(v)) == "pegnet.PegnetdSyncVersion" {
+				hasV = true
+			}
+		}
+		r.check(hasTx && hasH && hasV, "C19-R1/version-recorded", "MarkHeightSynced records PegnetdSyncVersion for the given height on the given tx", c.ipos(ci), "", fmt.Sprintf("transaction parameter passed=%v, height parameter passed=%v, PegnetdSyncVersion passed=%v", hasTx, hasH, hasV))
 	}
-	for _, ci := range findCalls(mv, "database/sql.Stmt.Exec") {
+	for _, ci := range c.findCallsFam(mv, "database/sql.Stmt.Exec") {
 		els := varargElems(ci.Common().Args[1])
-		okk := len(els) == 3 && valuePath(els[0]) == "height" && valuePath(els[1]) == "version"
+		fromParams := func(v ssa.Value, kind types.BasicKind) bool {
+			if mi, ok := v.(*ssa.MakeInterface); ok {
+				v = mi.X
+			}
+			b, ok := unwrapConv(v).Type().Underlying().(*types.Basic)
+			if !ok || b.Kind() != kind {
+				return false
+			}
+			return sliceHas(v, func(x ssa.Value) bool {
+				p, ok := x.(*ssa.Parameter)
+				return ok && p.Parent() == ci.Parent()
+			})
+		}
+		okk := len(els) == 3 && fromParams(els[0], types.Uint32) && fromParams(els[1], types.Int)
 		r.check(okk, "C19-R1/version-recorded", "version row = (height, version, now)", c.ipos(ci), "", "the INSERT into pn_sync_version does not bind (height, version, timestamp)")
 	}
 	is := c.fn("pegnet.Pegnet.InsertSynced")
-	r.check(len(findCalls(is, "pegnet.Pegnet.MarkHeightSynced")) == 1, "C19-R1/version-recorded", "InsertSynced marks the height", c.pos(is.Pos()), "", "InsertSynced does not call MarkHeightSynced")
+	r.check(len(c.findCallsFam(is, "pegnet.Pegnet.MarkHeightSynced")) == 1, "C19-R1/version-recorded", "InsertSynced marks the height", c.pos(is.Pos()), "", "InsertSynced does not call MarkHeightSynced")
 
 	// R2 start-up gate
 	r.rule("C19-R2/startup-gate", 3, "start-up passes the hard-fork check")
@@ -154,11 +191,27 @@ func propC19(c *Ctx, r *Report) {
 				t, _ := acc.run(c, r, chf, sc)
 				marked := false
 				for _, lc := range t.CallsTo("markHeightSyncedVersion") {
-					if v, ok := lc.Args[3].intVal(); ok && v == -1 {
-						marked = true
-						if lc.Args[2].String() != "$act" {
-							marked = false
+					// the scalars handed over, directly or as the fields of a small struct
+					var scalars []AVal
+					for _, a := range lc.Args {
+						scalars = append(scalars, a)
+						if a.K == APtr {
+							for _, fv := range t.s.objFields[a.Obj] {
+								scalars = append(scalars, fv)
+							}
 						}
+					}
+					minusOne, forAct := false, false
+					for _, a := range scalars {
+						if v, ok := a.intVal(); ok && v == -1 {
+							minusOne = true
+						}
+						if a.String() == "$act" {
+							forAct = true
+						}
+					}
+					if minusOne && forAct {
+						marked = true
 					}
 				}
 				want := sm > 0 && sa >= 0
